@@ -267,6 +267,19 @@ func (*Ufs) FidDestroy(sfid *SrvFid) {
 	}
 }
 
+// inRoot reports whether the (clean) host path p is the exported root or
+// lies below it.
+func (ufs *Ufs) inRoot(p string) bool {
+	root := filepath.Clean(ufs.Root)
+	return p == root || root == "/" || strings.HasPrefix(p, root+"/")
+}
+
+// badName reports whether a name supplied by a client for a new directory
+// entry could designate anything other than a child of that directory.
+func badName(name string) bool {
+	return name == ".." || strings.Contains(name, "/")
+}
+
 func (ufs *Ufs) Attach(req *SrvReq) {
 	if req.Afid != nil {
 		req.RespondError(Enoauth)
@@ -278,7 +291,7 @@ func (ufs *Ufs) Attach(req *SrvReq) {
 	// You can think of the ufs.Root as a 'chroot' of a sort.
 	// clients attach are not allowed to go outside the
 	// directory represented by ufs.Root
-	fid.path = filepath.Join(ufs.Root, tc.Aname)
+	fid.path = filepath.Join(ufs.Root, filepath.Join("/", tc.Aname))
 
 	req.Fid.Aux = fid
 	err := fid.stat()
@@ -293,7 +306,7 @@ func (ufs *Ufs) Attach(req *SrvReq) {
 
 func (*Ufs) Flush(req *SrvReq) {}
 
-func (*Ufs) Walk(req *SrvReq) {
+func (ufs *Ufs) Walk(req *SrvReq) {
 	fid := req.Fid.Aux.(*ufsFid)
 	tc := req.Tc
 
@@ -310,10 +323,30 @@ func (*Ufs) Walk(req *SrvReq) {
 	nfid := req.Newfid.Aux.(*ufsFid)
 	wqids := make([]Qid, len(tc.Wname))
 	path := fid.path
+	isdir := fid.st.IsDir()
 	i := 0
 	for ; i < len(tc.Wname); i++ {
-		p := path + "/" + tc.Wname[i]
-		st, err := os.Lstat(p)
+		name := tc.Wname[i]
+		p := path + "/" + name
+		var st os.FileInfo
+		var err error
+		switch {
+		case name == "..":
+			/* dotdot stays inside the exported tree: at the root it is the root */
+			if !isdir {
+				err = syscall.ENOTDIR
+				break
+			}
+			if p = filepath.Dir(filepath.Clean(path)); !ufs.inRoot(p) {
+				p = path
+			}
+			st, err = os.Lstat(p)
+		case strings.Contains(name, "/"):
+			/* not a single path element */
+			err = syscall.ENOENT
+		default:
+			st, err = os.Lstat(p)
+		}
 		if err != nil {
 			if i == 0 {
 				req.RespondError(Enoent)
@@ -325,6 +358,7 @@ func (*Ufs) Walk(req *SrvReq) {
 
 		wqids[i] = *dir2Qid(st)
 		path = p
+		isdir = st.IsDir()
 	}
 
 	if i == len(tc.Wname) {
@@ -352,12 +386,17 @@ func (*Ufs) Open(req *SrvReq) {
 	req.RespondRopen(dir2Qid(fid.st), 0)
 }
 
-func (*Ufs) Create(req *SrvReq) {
+func (ufs *Ufs) Create(req *SrvReq) {
 	fid := req.Fid.Aux.(*ufsFid)
 	tc := req.Tc
 	err := fid.stat()
 	if err != nil {
 		req.RespondError(err)
+		return
+	}
+
+	if badName(tc.Name) {
+		req.RespondError(&Error{"bad file name", EINVAL})
 		return
 	}
 
@@ -647,12 +686,16 @@ func (u *Ufs) Wstat(req *SrvReq) {
 		// cwd.
 		var destpath string
 		if dir.Name[0] == '/' {
-			destpath = filepath.Join(u.Root, dir.Name)
+			destpath = filepath.Join(u.Root, filepath.Join("/", dir.Name))
 			fmt.Printf("/ results in %s\n", destpath)
 		} else {
 			fiddir, _ := path.Split(fid.path)
 			destpath = filepath.Join(fiddir, dir.Name)
 			fmt.Printf("rel  results in %s\n", destpath)
+		}
+		if !u.inRoot(destpath) {
+			req.RespondError(Eperm)
+			return
 		}
 		err := syscall.Rename(fid.path, destpath)
 		fmt.Printf("rename %s to %s gets %v\n", fid.path, destpath, err)
